@@ -148,6 +148,19 @@ func redactNamespace(cmd *orderedmap.OrderedMap[string, any]) {
 	}
 }
 
+// redactNamespaceDocument handles a namespace given as {db: ..., coll: ...} ($merge.into).
+func redactNamespaceDocument(ns *orderedmap.OrderedMap[string, any]) *orderedmap.OrderedMap[string, any] {
+	redacted := orderedmap.NewOrderedMap[string, any]()
+	for el := ns.Front(); el != nil; el = el.Next() {
+		if name, ok := el.Value.(string); ok && (el.Key == "db" || el.Key == "coll") {
+			redacted.Set(el.Key, HashName(name))
+		} else {
+			redacted.Set(el.Key, el.Value)
+		}
+	}
+	return redacted
+}
+
 func redactCommand(cmd *orderedmap.OrderedMap[string, any], shouldEagerRedact bool) {
 	if cmd == nil {
 		return
@@ -488,6 +501,8 @@ func redactPipelineStage(stage interface{}, redactFieldNames bool, keyPath []str
 										switch subVTyped := subV.(type) {
 										case string:
 											newSubMap.Set(subK, HashName(subVTyped))
+										case *orderedmap.OrderedMap[string, any]:
+											newSubMap.Set(subK, redactNamespaceDocument(subVTyped))
 										default:
 											newSubMap.Set(subK, subV)
 										}
